@@ -74,11 +74,38 @@ fn main() {
     };
     let here = std::panic::catch_unwind(std::panic::AssertUnwindSafe(probe)).unwrap_or_else(|_| vec!["panic".into()]);
     let fresh = std::thread::spawn(move || std::panic::catch_unwind(std::panic::AssertUnwindSafe(probe)).unwrap_or_else(|_| vec!["panic".into()])).join().unwrap_or_default();
-    if here == fresh {
+    // a pattern given as TEXT (`impl Matcher for str`: `find_all("...")` of the library) means the
+    // pattern compiled for the language of the document at hand — also when the same text was used on
+    // a document of another language just before (grammars number their node kinds differently)
+    let str_matcher = || -> Option<serde_json::Value> {
+      use ast_grep_core::Language as _;
+      let js = "async function f(a) { for (const k in a) { while (k) { await g(k); break; } continue; } return this; }\nlet r = /this/;\ncompute(1, 2);\n";
+      let c = "int f(int a) { while (a) { if (a) break; else continue; } return compute(a, 2); }\n";
+      let docs = [
+        (SupportLang::JavaScript, js), (SupportLang::TypeScript, js), (SupportLang::Tsx, js), (SupportLang::JavaScript, js),
+        (SupportLang::C, c), (SupportLang::Cpp, c), (SupportLang::CSharp, "class A { int F(int a) { while (a > 0) { break; } return compute(a, 2); } }\n"),
+      ];
+      for pat in ["break", "continue", "return", "this", "compute($A, $B)", "while"] {
+        for (lang, text) in docs {
+          let g = lang.ast_grep(text);
+          let by_text: Vec<(usize, usize)> = g.root().find_all(pat).map(|m| (m.range().start, m.range().end)).collect();
+          let by_pattern: Vec<(usize, usize)> = match Pattern::try_new(pat, lang) {
+            Ok(p) => g.root().find_all(&p).map(|m| (m.range().start, m.range().end)).collect(),
+            Err(_) => continue,
+          };
+          if by_text != by_pattern {
+            return Some(serde_json::json!({"fp": "a pattern given as text finds other nodes than the pattern compiled for the document's language (after the same text was used on another language)",
+              "pattern": pat, "lang": lang.to_string(), "text": text, "find_all_str": by_text, "find_all_pattern": by_pattern}));
+          }
+        }
+      }
       None
-    } else {
+    };
+    if here != fresh {
       Some(serde_json::json!({"fp": "a parse depends on what the thread parsed before (after get_injections on an HTML page)",
         "page": page, "after_injection": here, "fresh_thread": fresh}))
+    } else {
+      std::panic::catch_unwind(std::panic::AssertUnwindSafe(str_matcher)).unwrap_or_else(|_| Some(serde_json::json!({"fp": "a pattern given as text panics"})))
     }
   };
   let thorough = tier == "thorough";
